@@ -1,6 +1,7 @@
 /-
   C15 — The vnode factory is createVNode unless a pragma names another.
 -/
+import VueJsx.Lemmas.Frame
 import VueJsx.Visitor
 
 namespace VueJsx
@@ -111,5 +112,116 @@ theorem C15_scan_result_is_one_word (c : List Char) (name : List Char) (h : prag
 #guard pragmaOfComment " @jsxFrag F".toList == none
 #guard pragmaOfComment " @jsx ".toList == none
 #guard pragmaOfComment " x @jsx h".toList == none
+
+/-- Every ELEMENT is created by calling exactly the pragma identifier: the vnode call (the whole lowering, or the first
+    argument of the `withDirectives` wrapper) has the callee `p` — whatever attributes, directives and children the
+    element has (the pragma is read after they were processed; none of them can change it: frame lemmas). -/
+theorem C15_element_callee (o : Opts) (env : Env) (a0 a1 a2 a3 : List String) (nameN x y : Node) (attrs children : List Node)
+    (st : St) (p : String) (h : st.pragma = some p) :
+    let r := trElement o env (.mk .jsxElement a0 [.mk .jsxOpening a1 [nameN, .mk .list a2 attrs, x], .mk .list a3 children, y]) st
+    (∃ args, r.1 = nCall (nQuoteIdent p) args) ∨ (∃ wd args rest, r.1 = nCall wd (nArg (nCall (nQuoteIdent p) args) :: rest)) := by
+  simp only [trElement]
+  -- the state in which the pragma is read
+  generalize hst : (finishChildren o
+      (trChildList o env children (transformTag env nameN (transformAttrs o env attrs (isComponent env nameN) (pushFlag o st)).2).2).1
+      (isComponent env nameN) (transformAttrs o env attrs (isComponent env nameN) (pushFlag o st)).1.slots
+      (popFlag o (trChildList o env children (transformTag env nameN (transformAttrs o env attrs (isComponent env nameN) (pushFlag o st)).2).2).2).1
+      (popFlag o (trChildList o env children (transformTag env nameN (transformAttrs o env attrs (isComponent env nameN) (pushFlag o st)).2).2).2).2).2 = stp
+  have hro : stp.ro = st.ro := by
+    rw [← hst]
+    simp only [finishChildren_ro, popFlag_ro, trChildList_ro, transformTag_ro, transformAttrs_ro, pushFlag_ro]
+  have hp : stp.pragma = some p := by
+    have : stp.ro.1 = st.ro.1 := by rw [hro]
+    simpa [St.ro, h] using this
+  have hg : (getPragma o stp).1 = nQuoteIdent p := by simp [getPragma, hp]
+  split
+  · left; exact ⟨_, by rw [hg]⟩
+  · right; exact ⟨_, _, _, by rw [hg]⟩
+
+theorem openingHook_pragma (n : Node) (st : St) : (openingHook n st).2.pragma = st.pragma := by
+  unfold openingHook
+  split
+  · split
+    · rfl
+    · simp only
+      split
+      · rfl
+      · split <;> rfl
+  · rfl
+
+theorem importHook_pragma (n : Node) (st : St) : (importHook n st).pragma = st.pragma := by
+  unfold importHook
+  split
+  · split
+    · rfl
+    · split <;> rfl
+  · rfl
+
+theorem drainInto_pragma (items : List Node) (st : St) : (drainInto items st).2.pragma = st.pragma := by
+  unfold drainInto
+  simp only
+  split <;> split <;> rfl
+
+theorem drainArrow_pragma (n : Node) (st : St) : (drainArrow n st).2.pragma = st.pragma := by
+  unfold drainArrow
+  split
+  · split
+    · split
+      · rfl
+      · simp only
+        split <;> split <;> rfl
+    · rfl
+  · rfl
+
+theorem ro_pragma {a b : St} (h : a.ro = b.ro) : a.pragma = b.pragma := by
+  simp only [St.ro, Prod.mk.injEq] at h; exact h.1
+
+theorem exprHook_pragma (o : Opts) (env : Env) (pos : Pos) (n : Node) (st : St) : (exprHook o env pos n st).2.pragma = st.pragma := by
+  unfold exprHook
+  split
+  · rfl
+  · split
+    · exact ro_pragma (trElement_ro o env _ st)
+    · exact ro_pragma (trFragment_ro o env _ st)
+    · rfl
+    · rfl
+
+theorem kindHook_pragma (o : Opts) (env : Env) (hrt : o.resolveType = false) (n : Node) (st : St) :
+    (kindHook o env n st).2.pragma = st.pragma := by
+  unfold kindHook
+  split
+  · exact openingHook_pragma _ _
+  · exact importHook_pragma _ _
+  · simp [callHook, hrt]
+  · simp [declaratorHook, hrt]
+  · rfl
+
+mutual
+/-- The pragma found in the comments is never changed by the traversal: every element and fragment of the module is
+    lowered under the same pragma (resolveType off; with it on, type resolution only appends diagnostics and imports). -/
+theorem visit_pragma (o : Opts) (env : Env) (hrt : o.resolveType = false) :
+    ∀ (n : Node) (pos : Pos) (st : St), (visit o env n pos st).2.pragma = st.pragma
+  | .mk k as ks, pos, st => by
+    unfold visit
+    split
+    next =>
+      simp only
+      rw [drainInto_pragma, visitKids_pragma o env hrt ks .stmts pos 0]; rfl
+    next params rest =>
+      simp only
+      rw [exprHook_pragma]
+      simp only
+      rw [drainArrow_pragma, visitKids_pragma o env hrt rest .arrow pos 1]
+      exact visit_pragma o env hrt params (kidPos .arrow pos 0) st
+    next =>
+      simp only
+      rw [exprHook_pragma, kindHook_pragma o env hrt, visitKids_pragma o env hrt ks k pos 0]
+theorem visitKids_pragma (o : Opts) (env : Env) (hrt : o.resolveType = false) :
+    ∀ (ks : List Node) (k : K) (pos : Pos) (i : Nat) (st : St), (visitKids o env k pos i ks st).2.pragma = st.pragma
+  | [], _, _, _, st => by simp [visitKids]
+  | c :: cs, k, pos, i, st => by
+    simp only [visitKids]
+    rw [visitKids_pragma o env hrt cs k pos (i + 1), visit_pragma o env hrt c (kidPos k pos i) st]
+end
 
 end VueJsx
